@@ -66,7 +66,15 @@ vsnprintf(char *buf, size_t size, const char *fmt, va_list ap)
                 pos = emit(buf, size, pos, *s);
             }
         } else if (*p == 'd' || *p == 'i') {
-            long v = lng ? va_arg(ap, long) : (long) va_arg(ap, int);
+            long v;
+
+            /* CBMC stores a variadic argument with its unpromoted type: an unsigned short such as
+             * ntohs(port) is a 2-byte object, and reading it as int would be out of bounds */
+            if (!lng && __CPROVER_OBJECT_SIZE(*(void **) ap) == sizeof(unsigned short)) {
+                v = (long) va_arg(ap, unsigned short);
+            } else {
+                v = lng ? va_arg(ap, long) : (long) va_arg(ap, int);
+            }
 
             if (v < 0) {
                 pos = emit(buf, size, pos, '-');
